@@ -47,6 +47,46 @@ def PinvSpec (tol : Rat) (w out : Vec) : Bool :=
   (List.range w.length).all fun i =>
     if vget w i = 0 then vget out i == 0 else close tol 0 (vget out i * vget w i) 1
 
+/-- documented definition of `directed2undirected`: `A + Aᵀ`, or the indicator of `max(A, Aᵀ) > 0`
+(an entry is 1 exactly when one of the two directions carries a positive weight); square input -/
+def D2USpec (tol : Rat) (a : Mat) (weighted : Bool) (out : Mat) : Bool :=
+  a.nRow == a.nCol && out.nRow == a.nRow && out.nCol == a.nCol &&
+  let sc := 2 * matMaxAbs a
+  rowAll a fun i => colAll a fun j =>
+    if weighted then close tol sc (out.get i j) (a.get i j + a.get j i)
+    else out.get i j == (if 0 < a.get i j || 0 < a.get j i then 1 else 0)
+
+/-- `bipartite2directed`: the adjacency `[[0, B], [0, 0]]` of the directed graph rows → columns -/
+def B2DSpec (tol : Rat) (b out : Mat) : Bool :=
+  let n := b.nRow + b.nCol
+  out.nRow == n && out.nCol == n &&
+  let sc := matMaxAbs b
+  (List.range n).all fun i => (List.range n).all fun j =>
+    close tol sc (out.get i j) (if i < b.nRow && b.nRow ≤ j then b.get i (j - b.nRow) else 0)
+
+/-- `bipartite2undirected`: the adjacency `[[0, B], [Bᵀ, 0]]` -/
+def B2USpec (tol : Rat) (b out : Mat) : Bool :=
+  let n := b.nRow + b.nCol
+  out.nRow == n && out.nCol == n &&
+  let sc := matMaxAbs b
+  (List.range n).all fun i => (List.range n).all fun j =>
+    close tol sc (out.get i j)
+      (if i < b.nRow && b.nRow ≤ j then b.get i (j - b.nRow)
+       else if b.nRow ≤ i && j < b.nRow then b.get j (i - b.nRow) else 0)
+
+/-- tf-idf, multiplicative form: `out[i, j] · Σ_k |count[i, k]| = count[i, j] · idf_j`, empty documents stay null;
+`idf_j = log(N / df_j)` (`logTable[df_j - 1]`), 0 for a word of no document, `df_j` = number of documents with a
+positive count of the word -/
+def TfidfSpec (tol : Rat) (count : Mat) (logTable : List Rat) (out : Mat) : Bool :=
+  out.nRow == count.nRow && out.nCol == count.nCol &&
+  rowAll count fun i =>
+    let s := sumTo count.nCol fun k => rabs (count.get i k)
+    colAll count fun j =>
+      let df := ((List.range count.nRow).filter fun i' => 0 < count.get i' j).length
+      let idf := if 0 < df then logTable.getD (df - 1) 0 else 0
+      if s = 0 then out.get i j == 0
+      else close tol (s * rabs idf) (out.get i j * s) (count.get i j * idf)
+
 def insertNat (x : Nat) : List Nat → List Nat
   | [] => [x]
   | y :: ys => if x ≤ y then x :: y :: ys else y :: insertNat x ys
